@@ -189,7 +189,7 @@ class SchedRunner(Runner):
             self.ev.append(('died', k))
             return TaskDiedError()
         try:
-            for dep in U.own_deps(task):
+            for dep in U.all_dep_instances(task):
                 dep._set_results_map(self.results_map)
             res = run_or_load_task(task=task, task_name=name, use_cache=use_cache,
                                    filtered_context=task.filter_context(self.context), storage=self.storage)
